@@ -1,6 +1,6 @@
 """C08 — mailbox communications are exactly-once, FIFO among accepted, and intact.
-Theorems: lean/SgVerif/C08/Props.lean (all histories of isend/irecv/set_receiver/cancel/finish/clear on a MailboxImpl
-model).  Tie: trace acceptance — generated actor programs run on the real library through Mailbox/Comm
+Theorems: lean/SgVerif/C08/Props.lean (all histories of isend/irecv/set_receiver/cancel/finish/clear/iprobe on a
+MailboxImpl model).  Tie: trace acceptance — generated actor programs run on the real library through Mailbox/Comm
 (props/_shared/msg/harness.cpp; match functions through the kernel calls SMPI uses); the Lean driver replays the
 observed kernel calls on the model, accepts only payloads/sizes the model matched, compares the final queues, and
 evaluates the monitors (exactly-once, intact, FIFO among accepted) on the log alone."""
@@ -124,7 +124,10 @@ def classify(res, verdict):
     fifo = ("older send accepted by both" in verdict or "left unmatched" in verdict or "older receive accepted" in verdict)
     if fifo and " setrecv " in res["program"]:
         return KEY_D7
-    if "whose mbox_ was reset by an iprobe" in verdict:
+    # KEY_PROBE is FIXED (known_findings.txt `fixed:` line, props/C08/fix_series): no `finding:` line any more, so a hit is
+    # reported as a violation — the key only names the regression (a crash of a program that probes, then cancels/clears)
+    prog = res["program"]
+    if "the library crashed" in verdict and " probe " in prog and (" cancel " in prog or " clear " in prog):
         return KEY_PROBE
     return None
 
